@@ -1,8 +1,12 @@
 import enumcheck
-LEGS = [{"name": "C15", "variant": "serial-asan", "sources": ["harness/C15_wellformed.c"]}]
+# second leg without a sanitizer: ASan's quarantine never hands a freed address out again, so state keyed by an object's address
+# (a cache that survives the object) can only show when the plain allocator recycles addresses across the cases of one worker process
+LEGS = [{"name": "C15", "variant": "serial-asan", "sources": ["harness/C15_wellformed.c"]},
+        {"name": "C15o", "variant": "serial-O2", "sources": ["harness/C15_wellformed.c"], "args": ["--batch", "4000"]}]
 run, replay = enumcheck.simple("C15", LEGS,
     "alignment family: (i) run-produced alignments for widths {1,2,3,59,60,61,119,120,121,180,181,240} x name lengths {1,2,10,59,60,61,199,200} x "
     "13 placements of the characters _ . | - in the name x {2,3,7} rows x {nucleotide, protein}; (ii) every <=3 x <=4 alignment with a gap and "
     "without all-gap column, read from an aligned FASTA file; (iii) two alignments with more than 1024 output lines; each written in all 3 formats "
-    "to a file and to stdout and parsed by independent readers; non-trivial = alignments wider than one 60-column block", "nontrivial_multi_block",
+    "to a file and to stdout and parsed by independent readers; ragged read inputs written without a run; every case on the ASan build and again on the "
+    "plain optimised build (thousands of cases per process, freed addresses recycled); non-trivial = alignments wider than one 60-column block", "nontrivial_multi_block",
     ["the MSF date is ignored", "MSF per-row checksums are recomputed over the row exactly as it appears in the file (GCG algorithm, independent code)"])
